@@ -17,7 +17,7 @@ func init() {
 		ID:  "C16",
 		Run: runC16,
 		Explain: "Decided: (a) determinism: no iteration over a map reaches a JSON builder (or any other order-sensitive effect) in pkg/minijson, pkg/extractor and cmd/expressions.go without the collected keys being sorted first; (b) the string-escape table, evaluated as constants from its composite literal, has an entry for every character JSON requires to be escaped (U+0000-U+001F, quote, backslash), each entry is the JSON escape of exactly its own index, and the table is long enough for its guard; (c) inside JsonObjectBuilder every string parameter written between quotes goes through escape(), and the raw-literal writer only receives constants or values that passed isNumeric; (d) no rune is narrowed to a byte on the output path without an ASCII guard. A sort of collected map keys counts only if its comparator can tell distinct keys apart (a comparison on raw elements); no byte of the text is widened to a rune on the output path. " +
-			"NOT decided: the numeric-literal grammar accepted by isNumeric (e.g. leading zeros), that decoded members equal the captured text for every input, invalid UTF-8 handling (delegated to range-over-string / strings.Builder).",
+			"NOT decided: that decoded members equal the captured text for every input, invalid UTF-8 handling (delegated to range-over-string / strings.Builder).",
 		Assume: []string{"strings.Builder and range-over-string behave as documented"},
 	})
 }
@@ -35,6 +35,7 @@ func runC16(c *Ctx, r *Report) {
 	c16EscapeTable(c, r)
 	c16EscapedWrites(c, r)
 	c16RuneNarrowing(c, r)
+	c16NumberGrammar(c, r, "C16-e/number-grammar")
 	// (f) building the object cannot crash: every index / slice expression of the JSON writer is in range
 	if bce, err := bceList(c); err != nil {
 		r.Undecided("C16-f/bce", "compiler", "listing", "-", err.Error())
